@@ -329,5 +329,17 @@ def run(ctx, rep, tier):
     _run_h14(ctx, rep, tier)
     _destination_typing(ctx, rep, tier)
     from .shared import delegate
+    rep.rule("C14.k", "`<string>.len` is rendered as a signed 32-bit value: its arithmetic does not depend on the storage type of the length counter")
+    fp = ctx.emit.enumerate("CodegenCtx._generate_code_for_int_expr", classes={"intexpr": "StringLengthIntegerExpr"})
+    nlen = 0
+    from ..emit import SStr
+    for p in fp.paths:
+        if p.end and p.end[0] == "return" and isinstance(p.end[1], SStr):
+            nlen += 1
+            txt = p.end[1].text()
+            rep.check(txt == "(int32_t)state->[[intexpr.ref.name]]_counter", "C14.k", "CodegenCtx._generate_code_for_int_expr", "length = (int32_t) counter",
+                      f"`.len` is rendered as `{txt}`: a uint32_t counter (capacity >= 65536) makes the surrounding arithmetic unsigned - `s.len - 1` is 4294967295 for an empty string, -1 for smaller capacities")
+    if nlen < 1:
+        raise AnalysisError("C14.k: no rendering of StringLengthIntegerExpr found")
     delegate(ctx, rep, tier, "C01", ("C01.l",), "C14.i", "an expression's value is what the procedural reading gives: groups of assignments repeated per byte are refused when one reads what another writes (expression reads include index and operand reads)")
     delegate(ctx, rep, tier, "C13", ("C13.g",), "C14.j", "an expression passed as a macro argument means the same in every context it is used in (assignment, append, condition): all parse entry points switch to its call-site scope")
